@@ -303,11 +303,39 @@ class Table:
                 return [([], Val("const", (a0.a[1] == "Some") == yes), (), ())]
             key = self._raw(a0)
             return [([("is", key, "Some")], Val("const", yes), (), ()), ([("is", key, "None")], Val("const", not yes), (), ())]
+        # Option::map(opt, f) / Option::ok_or(opt, e) / Option::ok_or_else(opt, f): by the variant of the option (split when it is not known)
+        if nm.startswith("core::option::Option::") and short in ("map", "ok_or", "ok_or_else") and len(args) == 2:
+            a0, f = args
+            OPT, RES = "core::option::Option", "core::result::Result"
+
+            def apply(v):
+                if f.kind == "const" and isinstance(f.a, tuple) and f.a[0] == "fn":
+                    path = f.a[1]
+                    adt, _, var = path.rpartition("::")
+                    info = self.prog.adts.get(adt)
+                    if info and any(x["name"] == var for x in info["variants"]):
+                        return Val("agg", (adt, var, [v]))             # a tuple-variant constructor used as a function
+                    return Val("call", (path, "%s(%s)" % (path.split("::")[-1], vdesc(v))))
+                return Val("call", ("closure", "closure(%s)" % vdesc(v)))
+
+            def some_arm(v):
+                if short == "map":
+                    return Val("agg", (OPT, "Some", [apply(v)]))
+                return Val("agg", (RES, "Ok", [v]))
+
+            def none_arm():
+                if short == "map":
+                    return Val("agg", (OPT, "None", []))
+                return Val("agg", (RES, "Err", [f if short == "ok_or" else Val("call", ("closure", "closure()"))]))
+            if a0.kind == "agg" and a0.a[1] in ("Some", "None"):
+                return [([], some_arm(a0.a[2][0]) if a0.a[1] == "Some" else none_arm(), (), ())]
+            key = self._raw(a0)
+            return [([("is", key, "Some")], some_arm(Val("place", key + "@Some.0")), (), ()), ([("is", key, "None")], none_arm(), (), ())]
         # small loop-free workspace function / closure
         cb = self.prog.body(nm)
         if short in self.opaque or (self.only is not None and short not in self.only):
             return None
-        if cb is None or cb.npath in self._stack or len(cb.loops()) or len(cb.blocks) > 80 or not cb.crate.startswith("pasfmt"):
+        if not self.inline or cb is None or cb.npath in self._stack or len(cb.loops()) or len(cb.blocks) > 80 or not cb.crate.startswith("pasfmt"):
             return None
         try:
             sub = Table(self.prog, cb, max_paths=256, inline=self.inline - 1, _stack=self._stack, opaque=self.opaque, only=self.only)
@@ -472,7 +500,7 @@ class Table:
                                 if tgt_l in env and not (1 <= tgt_l <= body.arg_count):
                                     env = dict(env)
                                     env.pop(tgt_l, None)
-                if self.inline and t["target"] is not None and not t["dst"]["p"]:
+                if (self.inline or len(self._stack) > 1) and t["target"] is not None and not t["dst"]["p"]:
                     alts = self._model_call(nm, args, t)
                     if alts is not None:
                         for extra_cons, val, eff, calls in alts:
